@@ -25,7 +25,7 @@ ASSUMPTIONS = ['a coroutine given to create_task that ends by cancellation, and 
                'the returned future end cancelled (the mirror rule of the statement: through convert_to_comm the reply is the mirror of that future)',
                'an exception raised by a _schedule_rpc callback may arrive wrapped, as long as it chains to the original',
                'thread-mode cases that hit their watchdog are inconclusive, never violations']
-REQUIRED = ['adapter/convert_plain', 'foreign_loop_futures', 'adapter/comm_thread', 'injected_delays', 'adapter/unwrap', 'adapter/plum2kiwi', 'adapter/create_task', 'adapter/schedule_rpc', 'outcome/value', 'outcome/exception', 'outcome/cancel',
+REQUIRED = ['idle_foreign_loops', 'adapter/convert_plain', 'foreign_loop_futures', 'adapter/comm_thread', 'injected_delays', 'adapter/unwrap', 'adapter/plum2kiwi', 'adapter/create_task', 'adapter/schedule_rpc', 'outcome/value', 'outcome/exception', 'outcome/cancel',
             'depth/2', 'depth/3', 'inner_first', 'outer_first', 'thread_mode', 'action_cases', 'callbacks_counted', 'mirrors_of_one_future', 'exception_objects_as_values', 'pure_python_futures', 'unprintable_failures']
 EXHAUSTIVE = {'quick': False, 'thorough': False}
 BOUNDS = {'quick': 'depth<=3 exhaustive orders, depth 4 sampled (200), thread mode 120 cases', 'thorough': 'depth 4 all orders, thread mode 2000 cases'}
@@ -107,6 +107,9 @@ def gen_cases(tier, seed):
             for order in list(itertools.permutations(range(depth))):
                 for foreign in (False, True):
                     cases.append({'adapter': 'convert_plain', 'depth': depth, 'order': list(order), 'outcome': oc, 'thread': False, 'foreign': foreign})
+                if depth >= 2:
+                    # ... a loop that runs in a thread of its own and is idle (blocked waiting for events) all the while
+                    cases.append({'adapter': 'convert_plain', 'depth': depth, 'order': list(order), 'outcome': oc, 'thread': False, 'foreign': 'idle-thread'})
     for depth in (0, 1, 2, 3):
         for oc in (OUTCOMES if depth else OUTCOMES[:4]):
             orders = list(itertools.permutations(range(depth))) or [()]
@@ -271,6 +274,7 @@ def run_case(case):
         obs['pure_python_futures'] = 1
     calls = []
     incon = None
+    forced_got = None
     viol = []
     try:
         if adapter == 'unwrap':
@@ -332,6 +336,62 @@ def run_case(case):
                 start()
             out = holder['out']
             _drive(loop, [], False, lambda: out.done(), on_loop=True)
+        elif adapter == 'convert_plain' and case.get('foreign') == 'idle-thread':
+            import time
+            other = asyncio.new_event_loop()
+            blocked = threading.Event()
+            orig_select = other._selector.select
+
+            def select(timeout=None):
+                if timeout is None:
+                    blocked.set()  # (the loop thread is about to block without a timeout: it is idle)
+                return orig_select(timeout)
+
+            other._selector.select = select
+            th = threading.Thread(target=other.run_forever, daemon=True)
+            th.start()
+            levels = [loop.create_future() for _ in range(depth - 1)] + [other.create_future()]
+
+            def subscriber(_comm, _msg):
+                return levels[0]
+
+            conv = communications.convert_to_comm(subscriber, loop)
+            out = futures.unwrap_kiwi_future(conv(None, 'msg'))
+            out.add_done_callback(lambda f: calls.append(1))
+
+            def complete(i):
+                if i < depth - 1:
+                    _complete(levels[i], 'link', levels[i + 1])
+                    return
+                # the innermost future is completed where it lives, by its own loop; afterwards that loop is idle again
+                blocked.clear()
+                other.call_soon_threadsafe(_complete, levels[i], oc, None)
+                t0 = time.time()
+                while not levels[i].done() and time.time() - t0 < 10:
+                    time.sleep(0.001)
+                blocked.wait(10)
+
+            try:
+                blocked.wait(10)
+                _drive(loop, [], False, lambda: out.done(), on_loop=True)
+                _drive(loop, [lambda i=i: complete(i) for i in order], False, lambda: out.done(), on_loop=True)
+                # generous wall-clock watchdog (the hand-over takes about a millisecond when the idle loop is woken up)
+                t0 = time.time()
+                while not out.done() and time.time() - t0 < 10:
+                    _drive(loop, [], False, lambda: out.done(), on_loop=True)
+                    time.sleep(0.002)
+                _drive(loop, [], False, lambda: out.done(), on_loop=True)
+                incon = None if (blocked.is_set() or out.done()) else 'foreign loop never idle'
+                if not out.done() and not (blocked.is_set() and len(other._ready) > 0):
+                    # (pending, but not because something sits in the queue of a loop nobody woke up: the watchdog on a loaded machine)
+                    incon = incon or 'watchdog'
+                forced_got = _describe(out)  # (as it is now: stopping the idle loop below wakes it up, which would deliver what is stuck)
+            finally:
+                other.call_soon_threadsafe(other.stop)
+                th.join(10)
+                other.close()
+            obs['foreign_loop_futures'] = 1
+            obs['idle_foreign_loops'] = 1
         elif adapter == 'convert_plain':
             other = asyncio.new_event_loop() if case.get('foreign') else None
             levels = [loop.create_future() for _ in range(depth - 1)] + [(other or loop).create_future()]
@@ -392,12 +452,12 @@ def run_case(case):
             out = holder['out']
             steps = [lambda i=i: _complete(levels[i], 'link' if i < depth - 1 else oc, levels[i + 1] if i < depth - 1 else None) for i in order]
             _drive(loop, steps, False, lambda: out.done(), on_loop=True)
-        got = _describe(out)
+        got = forced_got if forced_got is not None else _describe(out)
         exp = _expected(oc)
         where = '%s:depth%d:%s' % (adapter, depth, 'thread' if thread else 'loop')
         pattern = 'inner-first' if obs['inner_first'] else ('outer-first' if obs['outer_first'] else 'single')
         if got == ['pending']:
-            if thread and incon:
+            if (thread or case.get('foreign') == 'idle-thread') and incon:
                 pass
             else:
                 viol.append(V('adapter-pending', 'adapter-pending:%s:%s:%s' % (adapter, oc[0], pattern),
